@@ -239,6 +239,9 @@ func (ex *Exec) fire(before bool, kind, name string, c *ssa.CallCommon, args []V
 					t = c.Args[i-off].Type()
 				}
 			}
+			if t == nil && i < len(ex.anchorArgTypes) {
+				t = ex.anchorArgTypes[i]
+			}
 			env.vars[fmt.Sprintf("arg%d", i)] = TV{a, t}
 		}
 		if res != nil {
